@@ -8,5 +8,5 @@ Theorem dt_unconvert_shape : forall v off,
     dt_unconvert v = OK (render_dt y mo d (Some (h, mi, s, Some ms, Some (mkoff sg hh mm (a_name v)))))
     /\ (1000 <= y <= 9999 /\ 1 <= mo <= 12 /\ 1 <= d <= 31 /\ h < 24 /\ mi < 60 /\ s < 60 /\ ms < 1000)%N
     /\ (sg = SPlus \/ sg = SMinus) /\ (forall m, mm = Some m -> 1 <= m < 60)%N.
-Proof. exact dt_unconvert_shape_l. Qed.
+Proof. exact (dt_unconvert_shape_l nd_zeros). Qed.
 Print Assumptions dt_unconvert_shape.
